@@ -541,7 +541,9 @@ Definition add_new (xs set : list N) : list N :=
 Fixpoint closure (k : nat) (ru : list (option (list dfield))) (set : list N) : list N :=
   match k with
   | O => set
-  | S k' => closure k' ru (add_new (flat_map (mentions ru) set) set)
+  | S k' =>
+      let set' := add_new (flat_map (mentions ru) set) set in
+      if Nat.eqb (length set') (length set) then set else closure k' ru set'
   end.
 
 Definition accepted_with (ru : list (option (list dfield))) (sid : N) : bool :=
